@@ -90,6 +90,17 @@ def check_equiv(inp):
     base = optimizers.sgd(0.05)
     ref = run(fed_avg.federated_averaging(grad_fn, base, optimizers.sgd(1.0), hp), rounds)
     got = run(mime_lite.mime_lite(pel, base, hp, php, 1.0), rounds)
+  elif which in ('mimelite_pmap', 'fedprox0_pmap'):
+    # the same reductions with the pmap backend selected when the algorithm is built: the backend may return the clients in
+    # another order (full batches only: pmap stacks the batches of a block)
+    from fedjax.core import for_each_client as fec
+    base = optimizers.sgd(0.05)
+    hpf = cds.ShuffleRepeatBatchHParams(batch_size=2, num_epochs=1, seed=4)
+    ref = run(fed_avg.federated_averaging(grad_fn, base, optimizers.sgd(1.0), hpf), rounds)
+    with fec.for_each_client_backend('pmap'):
+      alg = (mime_lite.mime_lite(pel, base, hpf, cds.PaddedBatchHParams(batch_size=2), 1.0) if which == 'mimelite_pmap'
+             else fed_prox.fed_prox(pel, base, optimizers.sgd(1.0), hpf, 0.0))
+    got = run(alg, rounds)
   elif which == 'mime1':
     base = optimizers.sgd(0.05)
     hp1 = cds.ShuffleRepeatBatchHParams(batch_size=2, num_epochs=None, num_steps=1, seed=4)
@@ -147,6 +158,8 @@ def sweep_equiv(tier, seed):
   yield dict(which='hyp1', copt='sgd', rounds=R)
   yield dict(which='hyp1', copt='momentum', rounds=R)
   yield dict(which='mimelite', copt='sgd', rounds=R)
+  yield dict(which='mimelite_pmap', copt='sgd', rounds=[[2, 4, 6], [4, 2]])
+  yield dict(which='fedprox0_pmap', copt='sgd', rounds=[[2, 6, 4]])
   yield dict(which='mime1', copt='sgd', rounds=[[3, 4], [2, 5]])
   yield dict(which='mime1_keyed', copt='sgd', rounds=[[3, 4], [2, 5, 1]])
 
